@@ -29,7 +29,7 @@ Dashes14(name) ==
     LET n == NDelims(MainPieces(name)) IN {{}, 1..n} \cup (IF Quick THEN {} ELSE {{d} : d \in 1..n})
 
 Cases14 == UNION {{[s |-> name, D |-> D, style |-> style, padAt |-> P, ps |-> pst]
-                    : D \in Dashes14(name), style \in (IF Quick THEN {"sp"} ELSE {"sp", "lf"}), P \in PadSets(name), pst \in PadStyles}
+                    : D \in Dashes14(name), style \in (IF Quick THEN {"sp", "none"} ELSE {"sp", "lf", "none", "ctl2"}), P \in PadSets(name), pst \in PadStyles}
                   : name \in DOMAIN Corpus}
 
 \* the length plans: one run each; "total" plans need a single pad
@@ -64,9 +64,10 @@ SmallSweepRuns(c) ==
       pads |-> [i \in 1..MaxSym |-> IF i = 1 THEN [len |-> 6 * k, style |-> "e", total |-> 0]
                                     ELSE IF i = 2 THEN [len |-> 14 * j, style |-> "d", total |-> 0]
                                     ELSE [len |-> 0, style |-> "p", total |-> 0]]] : k \in SmallKs, j \in 0..2}
-SweepCases == UNION {{[s |-> name, D |-> D, style |-> "sp", padAt |-> {1, 2}, ps |-> "sweepsmall"]
-                        : D \in {{}, 1..NDelims(MainPieces(name))}} : name \in {"print2", "ifelse"}} \cup UNION {{[s |-> name, D |-> D, style |-> "sp", padAt |-> {1, 2}, ps |-> "sweep"]
-                        : D \in {{}, 1..NDelims(MainPieces(name))}} : name \in {"print2", "ifelse"}}
+SweepCases == UNION {{[s |-> name, D |-> D, style |-> st, padAt |-> {1, 2}, ps |-> "sweepsmall"]
+                        : D \in {{}, 1..NDelims(MainPieces(name))}, st \in {"sp", "none"}} : name \in {"print2", "ifelse"}}
+              \cup UNION {{[s |-> name, D |-> D, style |-> st, padAt |-> {1, 2}, ps |-> "sweep"]
+                        : D \in {{}, 1..NDelims(MainPieces(name))}, st \in {"sp", "none"}} : name \in {"print2", "ifelse"}}
 CaseOf14(c) ==
     [prop |-> IF Only = "dashsweep" THEN "C13" ELSE "C14", key |-> ToJson(c),
      tags |-> {"s:" \o c.s, "style:" \o c.style, "ndash:" \o ToString(Cardinality(c.D)), "pad:" \o c.ps,
